@@ -131,10 +131,25 @@ def run(item, ctx, tier, seed):
                               f"r = roc(s, fnr={fnr_in!r}, fpr={fpr_in!r}, thresholds={thr_in!r}, nb_points={nbp!r}, x_axis={ax!r})\n"
                               "print(r.thresholds, r.fnr, r.fpr)\n").replace("inf", "np.inf")
                       kw_before = {k: (v.copy() if hasattr(v, "copy") else list(v)) for k, v in kw.items()}
-                      ok, r = guarded(ctx, "roc", case, lambda: roc(s, nb_points=nbp, x_axis=ax, **kw))
+                      ax_arg = ot.string_kinds(ax)[(ci + len(neg)) % 3][1]  # literal / built at run time / np.str_
+                      ok, r = guarded(ctx, "roc", case, lambda: roc(s, nb_points=nbp, x_axis=ax_arg, **kw))
                       ctx.tick()
                       if not ok:
                           continue
+                      if how == "constructed" and ci % 29 == 0:
+                          # an equal object that answered other queries first gives the same curve
+                          okw, w_ = guarded(ctx, "construct", case, Scores, parr.copy(), narr.copy(), nb_easy_pos=ep, nb_easy_neg=en,
+                                            score_class=sc, equal_class=ec)
+                          if okw:
+                              for q_ in (lambda o: o.threshold_at_topr(0.3), lambda o: o.threshold_at_tonr(np.array([0.2, 0.6])), lambda o: o.eer(),
+                                         lambda o: o.auc(), lambda o: o.threshold_at_fnr(0.25), lambda o: o.cm(np.array([lo, hi])).matrix):
+                                  guarded(ctx, "warm-up", case, q_, w_)
+                              okr, rw = guarded(ctx, "roc", case, lambda: roc(w_, nb_points=nbp, x_axis=ax, **{k_: (v_.copy() if hasattr(v_, "copy") else list(v_)) for k_, v_ in kw_before.items()}))
+                              ctx.tick()
+                              if okr and not all(np.array_equal(np.asarray(getattr(rw, f_), dtype=float), np.asarray(getattr(r, f_), dtype=float), equal_nan=True)
+                                                 for f_ in ("thresholds", "fnr", "fpr")):
+                                  ctx.fail("curve-independent-of-query-history", case, observed=[rw.thresholds, rw.fnr, rw.fpr],
+                                           expected=[r.thresholds, r.fnr, r.fpr])
                       for k, v in kw.items():
                           if not np.array_equal(np.asarray(v, dtype=float), np.asarray(kw_before[k], dtype=float), equal_nan=True):
                               ctx.fail("supplied-arrays-unchanged", dict(case, argument=k), observed=v, expected=kw_before[k])
